@@ -179,6 +179,14 @@ class DirectObjectAccess:
         return create_access_path(self._inference_state, obj)
 
     def py__bool__(self):
+        for name in ('__bool__', '__len__'):
+            try:
+                attr, _ = getattr_static(type(self._obj), name)
+            except AttributeError:
+                continue
+            if type(attr) not in (WrapperDescriptorType, MethodDescriptorType):
+                # A user-defined __bool__/__len__ would be executed.
+                return None
         return bool(self._obj)
 
     def py__file__(self) -> Optional[Path]:
